@@ -76,6 +76,9 @@ type nBundle struct {
 	age      *int64
 	del      bool
 	bs       *int
+	// lsTime: the bundle carries a DTLSRBlock with link-state data of its source node and this timestamp
+	// (abstract ms; not part of the line: the model's DTLSR records the previous node whatever the data says)
+	lsTime *int64
 	// mode restricts the events generated for this bundle (not part of the line):
 	// 0 = own-source bundles are submitted, foreign-source bundles are received; 'S' / 'R' / 'B' force
 	// submit-only / receive-only / both
@@ -213,21 +216,20 @@ type nCLA struct {
 }
 
 func nTagOf(b *bpv7.Bundle) int {
+	// a bundle of the history carries its tag in the payload (it may carry a DTLSRBlock as well: relayed
+	// link-state broadcasts); the node's own routing metadata bundles do not
+	if pb, err := b.PayloadBlock(); err == nil {
+		if d := pb.Value.(*bpv7.PayloadBlock).Data(); len(d) == 4 && d[0] == 0xC5 && d[3] == 0x5C {
+			return int(d[1])
+		}
+	}
 	if _, err := b.ExtensionBlock(bpv7.ExtBlockTypeProphetBlock); err == nil {
 		return -1
 	}
 	if _, err := b.ExtensionBlock(bpv7.ExtBlockTypeDTLSRBlock); err == nil {
 		return -1
 	}
-	pb, err := b.PayloadBlock()
-	if err != nil {
-		return -2
-	}
-	d := pb.Value.(*bpv7.PayloadBlock).Data()
-	if len(d) != 4 || d[0] != 0xC5 || d[3] != 0x5C {
-		return -2
-	}
-	return int(d[1])
+	return -2
 }
 
 func (m *nCLA) Send(b bpv7.Bundle) error {
@@ -293,6 +295,10 @@ func (r *nRun) build(d *nBundle) bpv7.Bundle {
 	}
 	if d.bs != nil {
 		bl = bl.Canonical(bpv7.NewBinarySprayBlock(uint64(*d.bs)))
+	}
+	if d.lsTime != nil {
+		bl = bl.Canonical(bpv7.NewDTLSRBlock(bpv7.DTLSRPeerData{ID: d.src.real(), Timestamp: r.realTs(*d.lsTime),
+			Peers: map[bpv7.EndpointID]bpv7.DtnTime{}}))
 	}
 	bl = bl.PayloadBlock([]byte{0xC5, byte(d.tag), byte(d.tag >> 8), 0x5C})
 	b, err := bl.Build()
